@@ -17,6 +17,10 @@ CONFIGS = {
     # graceful disturbances only (crash / restart with infinite TTLs is what known finding F1 is about: config "inf")
     "inf1": (annenv.tcfg(cyclic=4, annTTL=FOREVER, collect=1), FOREVER, 0, 11, False),
 }
+# infinite TTLs and NO cyclic offers (offers only in the initial and repetition phases): a watcher that comes late learns the service
+# from the answer to its FindService.  (A crash of the offering stack with infinite TTLs is known finding F1: left out here.)
+CONFIGS["nocyc"] = (annenv.tcfg(cyclic=0, annTTL=FOREVER, collect=0, reps=2, base=1), FOREVER, 0, 9, False)
+NO_SRV_CRASH = {"nocyc"}
 GRACEFUL_ONLY = {"inf1"}
 # both stacks have been up for a long time before the run: their session counters have wrapped once (reboot flag cleared)
 # and wrap a second time a few messages into the run
@@ -28,7 +32,7 @@ def mcfg(name):
     return {"bound": CONFIGS[name][3], "needAlive": CONFIGS[name][1] == FOREVER}
 
 
-def gen_faults(rng, lossy, n_max, t_max, graceful=False):
+def gen_faults(rng, lossy, n_max, t_max, graceful=False, no_srv_crash=False):
     out = []
     t = 0
     for _ in range(rng.randint(1, n_max)):
@@ -38,6 +42,8 @@ def gen_faults(rng, lossy, n_max, t_max, graceful=False):
             kinds = ["stop"]
         k = rng.choice(kinds)
         node = rng.choice(["srv", "wat"])
+        if k == "crash" and no_srv_crash:
+            node = "wat"
         if k == "crash":
             out.append({"t": t, "kind": "crash", "node": node})
             if rng.random() < 0.85:
@@ -97,7 +103,7 @@ def traces_for(seed, count, n_max):
     for n in range(count):
         rng = random.Random("c04/%s/%s" % (seed, n))
         name = names[n % len(names)]
-        faults = gen_faults(rng, CONFIGS[name][4], n_max, 60, name in GRACEFUL_ONLY) if n >= len(names) else []
+        faults = gen_faults(rng, CONFIGS[name][4], n_max, 60, name in GRACEFUL_ONLY, name in NO_SRV_CRASH) if n >= len(names) else []
         ev = run(name, faults)
         out.append({"cfg": mcfg(name), "ev": monpass.add_adv(ev), "faults": faults, "config": name,
                     "diag": {"config": name, "pattern": "F1" if f1_pattern(ev, name) else "",
@@ -173,6 +179,7 @@ def mode1(ctx):
     m1.holds("wrap (session counters past their first wrap), all disturbances, 2 steps", "C04_quick.cfg", sub_cfg("wrap", "AllKinds"))
     m1.holds("inf, 2 steps", "C04_quick.cfg", sub_cfg("inf", "InfKinds"))
     m1.holds("inf1, 2 steps", "C04_quick.cfg", sub_cfg("inf1", "InfKinds"))
+    m1.holds("nocyc (no cyclic offers), 2 steps", "C04_quick.cfg", sub_cfg("nocyc", "InfKinds"))
     if not ctx.quick:
         m1.holds("fin, all disturbances, 2 steps, free interleaving of the two loops", "C04_quick.cfg",
                  sub_cfg("fin", "AllKinds", sched="any"), timeout=3000)
@@ -220,10 +227,12 @@ def check(ctx):
                    "diag": {"config": "inf", "pattern": "F1" if f1_pattern(ev, "inf") else "", "faults": [(f["t"], f["kind"], f["node"]) for f in f1]}})
     pairs = [("crash", "restart", "srv"), ("crash", "restart", "wat"), ("stop", "start", "srv"), ("stop", "start", "wat"),
              ("loss_on", "loss_off", None)]
-    for name in (["fin", "inf", "inf1", "wrap"] if ctx.quick else list(CONFIGS)):
+    for name in (["fin", "inf", "inf1", "wrap", "nocyc"] if ctx.quick else list(CONFIGS)):
         kn = [p for p in pairs if CONFIGS[name][4] or p[2] is not None]
         if name in GRACEFUL_ONLY:
             kn = [p for p in kn if p[0] == "stop"]
+        if name in NO_SRV_CRASH:
+            kn = [p for p in kn if not (p[0] == "crash" and p[2] == "srv")]
         traces += sweep(name, kn, range(0, ctx.pick(10, 24)), ctx.pick([0, 1, 3, 13], [0, 1, 2, 3, 4, 5, 8, 13, 20]))
     sim = spec_schedules(ctx, "fin", "AllKinds", ctx.pick(4, 30), ctx.pick(5, 10)) + \
         spec_schedules(ctx, "inf1", "InfKinds", ctx.pick(2, 15), ctx.pick(5, 10))
